@@ -21,8 +21,8 @@ theorem C14_toNodes_is_spec (items : Args) :
 
 /-- `_tagchilds_to_tagnodes(x)` for any operand `x` (str kept whole, other iterables iterated) -/
 theorem C14_tagnodes_is_spec (x : Arg) :
-    tagchildsToTagnodes x = mapOk (List.map Stored.node) (operandSpec x) := by
-  unfold tagchildsToTagnodes operandSpec childrenOf
+    chTagchildsToTagnodes x = mapOk (List.map Stored.node) (operandSpec x) := by
+  unfold chTagchildsToTagnodes operandSpec childrenOf
   by_cases hs : x.isStr = true
   · cases x with
     | node n =>
@@ -186,7 +186,7 @@ theorem C14_positions (len : Nat) :
 
 /-- whatever `_tagchilds_to_tagnodes` returns consists of nodes only — for *any* operand, including a
     TagList whose own data is not normalised -/
-theorem C14_normalise_inv (x : Arg) (r : TL) (h : tagchildsToTagnodes x = .ok r) : Inv r := by
+theorem C14_normalise_inv (x : Arg) (r : TL) (h : chTagchildsToTagnodes x = .ok r) : Inv r := by
   rw [C14_tagnodes_is_spec] at h
   cases hs : operandSpec x with
   | error e => simp [hs, mapOk] at h
